@@ -10,7 +10,7 @@ import (
 
 func init() {
 	register(&propDef{ID: "C15", Run: runC15,
-		Explain:    "Structural necessary conditions of 'dialog pins live as long as promised and are forgotten on termination', decided on SSA/CFG/value flow of /repo: (1) expiry-polarity: GetBackend returns the stored backend only on the edge expire > now and an error otherwise; the sweep removes an entry only on the edge expire < now; (2) max-lifetime: in AddBackend the lifetime added to now is the Expires-derived duration exactly on the edge where Expires (in seconds) exceeds the configured timeout, and the configured timeout on the other edge; the unit constant is one second; the pin stored is {backend argument, now+lifetime} under the dialog argument; (3) sweep-schedule: the value stored into nextCleanTime is now + the configured timeout and derives from no message data (neither the Expires parameter nor anything network-tainted); the sweep is called on the edge nextCleanTime < now of every AddBackend; (4) termination: RemoveDialog(GetDialog(msg)) under method == BYE in the backend-response handler and under method == NOTIFY and Subscription-State == terminated in the pin lookup; (5) timeout-wiring: DialogBasedBackend.timeout derives from the YAML field dialogTimeout (when > 0) or DEFAULT_DIALOG_TIMEOUT / 1200, times one second.",
+		Explain:    "Structural necessary conditions of 'dialog pins live as long as promised and are forgotten on termination', decided on SSA/CFG/value flow of /repo: (1) expiry-polarity: GetBackend returns the stored backend only on the edge expire > now and an error otherwise; the sweep removes an entry only on the edge expire < now; (2) max-lifetime: in AddBackend the lifetime added to now is the Expires-derived duration exactly on the edge where Expires (in seconds) exceeds the configured timeout, and the configured timeout on the other edge; the unit constant is one second; the pin stored is {backend argument, now+lifetime} under the dialog argument; (3) sweep-schedule: the value stored into nextCleanTime is now + the configured timeout and derives from no message data (neither the Expires parameter nor anything network-tainted); the sweep is called on the edge nextCleanTime < now of every AddBackend; (4) termination: RemoveDialog(GetDialog(msg)) under method == BYE in the backend-response handler and under method == NOTIFY and Subscription-State == terminated in the pin lookup; (5) timeout-wiring: DialogBasedBackend.timeout derives from the YAML field dialogTimeout (when > 0) or DEFAULT_DIALOG_TIMEOUT / 1200, times one second. Termination also holds a census: every RemoveDialog call of the package is one of those two, or drops the client transaction record (key GetClientTransaction) under IsFinalResponse; and the pin record (ExpireBackend.expire/.backend) is stored only when AddBackend makes it.",
 		NotDecided: "anything that depends on elapsed time."})
 }
 
@@ -444,7 +444,53 @@ func c15Termination(c *Ctx) {
 			c.check(w.requires(f, cs.In, isResp, false) || w.requires(f, cs.In, isResp, true), rule, "handleDialog/responses-only@"+cs.Name, w.ipos(cs.In), "pin changes in handleDialog concern responses only", "handleDialog changes pins without testing that the message is a response")
 		}
 	}
-	c.floor(rule, 6)
+	// census: a pin is forgotten nowhere else. Every RemoveDialog call of the package is one of the three above - under
+	// method == BYE in handleDialog, under NOTIFY/terminated in the pin lookup - or drops the client transaction record
+	// (key: GetClientTransaction) when the transaction's final response has come.
+	for _, fn := range w.All {
+		nSites := 0
+		for _, cs := range w.callsIn(fn, "(*DialogBasedBackend).RemoveDialog") {
+			nSites++
+			key := fmt.Sprintf("forget-census/%s#%d", w.fname(fn), nSites)
+			ok := false
+			methodIs := func(m string) func(Atom) bool {
+				return func(a Atom) bool {
+					if a.Kind != "eqstr" || a.Str != m {
+						return false
+					}
+					cc, _ := callOfResult(a.X)
+					return cc != nil && w.calleeName(cc) == "(*Message).GetMethod"
+				}
+			}
+			switch w.fname(fn) {
+			case "(*Proxy).handleDialog":
+				ok = w.requires(fn, cs.In, methodIs("BYE"), true)
+			case "(*Proxy).findBackendByDialog":
+				ok = w.requires(fn, cs.In, methodIs("NOTIFY"), true)
+			}
+			if !ok {
+				if w.resultOfCallTo(callArg(cs.In, 0), "(*Message).GetClientTransaction", 0) != nil {
+					fin := func(a Atom) bool {
+						cc, _ := callOfResult(a.X)
+						return a.Kind == "bool" && cc != nil && w.calleeName(cc) == "(*Message).IsFinalResponse"
+					}
+					ok = w.requires(fn, cs.In, fin, true)
+				}
+			}
+			c.check(ok, rule, key, w.ipos(cs.In), "a known termination: BYE answered, NOTIFY terminated, or the transaction record at its final response", "a dialog pin is dissolved at a site that is none of the terminations the property names (BYE answered by the backend, NOTIFY with Subscription-State terminated; the transaction record at the final response): requests that still belong to the dialog - after a refused re-INVITE, say - are load-balanced again")
+		}
+	}
+	// the pin record is written once, when it is made: nothing shortens (or moves) a pin afterwards
+	for _, ref := range []string{"ExpireBackend.expire", "ExpireBackend.backend"} {
+		for _, fn := range w.All {
+			for i, st := range w.fieldStores(fn, ref) {
+				fa := st.Addr.(*ssa.FieldAddr)
+				fresh := w.fname(fn) == "(*DialogBasedBackend).AddBackend" && w.isFreshValue(fn, strip(fa.X), 0)
+				c.check(fresh, rule, fmt.Sprintf("pin-record/%s<-%s#%d", ref, w.fname(fn), i+1), w.ipos(st), "set when AddBackend makes the record", ref+" is rewritten after the pin was made (outside the construction in AddBackend): the lifetime AddBackend granted - the longer of the configured timeout and Expires - can be cut short, or the pin moved, by later traffic")
+			}
+		}
+	}
+	c.floor(rule, 11)
 }
 
 func c15Wiring(c *Ctx) {
